@@ -457,7 +457,14 @@ var stmtInjections = []stmtInjection{
 	{"principal-unknown-account", func(e *genEnv, r *rand.Rand, s *stmt) string {
 		u := e.Users[0]
 		v := pick(r, []variant{{"other-name", "nouser"}, {"suffix", u + "x"}, {"upper", strings.ToUpper(u)}, {"truncated", u[:len(u)-1]}, {"blank-padded", " " + u}})
-		if len(s.Prin) == 1 && s.Prin[0] == "*" {
+		if len(s.Prin) == 1 && s.Prin[0] == "*" && r.Intn(2) == 0 {
+			// the unknown account next to the wildcard (in either order): every member has to be a principal
+			s.Prin = []string{"*", v.val}
+			if r.Intn(2) == 0 {
+				s.Prin = []string{v.val, "*"}
+			}
+			v.label += "+beside-star"
+		} else if len(s.Prin) == 1 && s.Prin[0] == "*" {
 			s.Prin = []string{v.val}
 		} else {
 			s.Prin = insertInto(r, s.Prin, v.val)
